@@ -122,7 +122,7 @@ def user_line(body, b, i=None):
 def where(body, b=None, i=None):
     if b is None:
         return body.where()
-    return '%s:%s' % (body.file, user_line(body, b, i))
+    return '%s:%s' % (body.blocks[b].get('file') or body.file, user_line(body, b, i))
 
 
 def fn_key(body):
@@ -252,3 +252,77 @@ def helper_closure(crate, roots_pred, depth=4):
         if b.kind in ('AssocFn', 'Fn') and not b.in_test:
             go(b, depth)
     return {p for p, v in memo.items() if v}
+
+
+# ---- canonical reading of comparisons with small constants (unsigned operands)
+
+_ZERO_TESTS = {   # (op, const) for `x OP const`  ->  True when the TRUE edge means x == 0, False when it means x != 0
+    ('Eq', 0): True, ('Ne', 0): False, ('Gt', 0): False, ('Le', 0): True, ('Lt', 1): True, ('Ge', 1): False,
+}
+_FLIP = {'Eq': 'Eq', 'Ne': 'Ne', 'Lt': 'Gt', 'Gt': 'Lt', 'Le': 'Ge', 'Ge': 'Le'}
+
+
+def zero_test(info, is_x):
+    """a `cmp` switch_info that is equivalent to a test `x == 0` on an unsigned x (written `x == 0`, `x != 0`, `x > 0`, `x < 1`, `x >= 1`,
+    `x <= 0`, either operand order, any number of negations): returns (zero_edge, nonzero_edge, x_operand) or None.
+    is_x(trace, operand) selects the tested value."""
+    if not info or info.get('kind') != 'cmp':
+        return None
+    for xs, cs, flip in (('a', 'b', False), ('b', 'a', True)):
+        c = info[cs]
+        if c.get('kind') != 'const' or c.get('val') not in (0, 1):
+            continue
+        if not is_x(info[xs], info[xs + '_op']):
+            continue
+        op = _FLIP[info['op']] if flip else info['op']
+        z = _ZERO_TESTS.get((op, c['val']))
+        if z is None:
+            continue
+        return (info['true'], info['false'], info[xs + '_op']) if z else (info['false'], info['true'], info[xs + '_op'])
+    return None
+
+
+def rel(info):
+    """canonical (a_trace, a_op, OP, b_trace, b_op) with OP in Lt/Le/Eq/Ne/Ge/Gt as it holds on the TRUE edge"""
+    if not info or info.get('kind') != 'cmp':
+        return None
+    return info['a'], info['a_op'], info['op'], info['b'], info['b_op']
+
+
+def ge_test(info, is_a, is_b):
+    """a comparison equivalent to `a >= b` (a >= b, !(a < b), b <= a, !(b > a)): returns (ge_edge, lt_edge) or None;
+    `a > b` / `a <= b` forms are NOT equivalent and return None"""
+    if not info or info.get('kind') != 'cmp':
+        return None
+    op = info['op']
+    if is_a(info['a'], info['a_op']) and is_b(info['b'], info['b_op']):
+        if op == 'Ge':
+            return info['true'], info['false']
+        if op == 'Lt':
+            return info['false'], info['true']
+    if is_a(info['b'], info['b_op']) and is_b(info['a'], info['a_op']):
+        if op == 'Le':
+            return info['true'], info['false']
+        if op == 'Gt':
+            return info['false'], info['true']
+    return None
+
+
+def zero_switches(body, is_x):
+    """every switch of `body` that decides `x == 0` for an unsigned x selected by is_x(trace, operand): comparisons in any of the
+    equivalent spellings (zero_test) and direct integer switches `switchInt(x) [0 -> .., otherwise -> ..]` (from `match x { 0 => .. }`
+    / `Ok(0)` patterns).  yields (switch block, zero edge, nonzero edge, x operand)"""
+    for sw in range(body.n):
+        if body.is_cleanup(sw) or body.term(sw)['k'] != 'switch':
+            continue
+        info = body.switch_info(sw)
+        if not info:
+            continue
+        if info.get('kind') == 'cmp':
+            z = zero_test(info, is_x)
+            if z:
+                yield sw, z[0], z[1], z[2]
+        elif info.get('kind') == 'int':
+            op = body.term(sw)['op']
+            if 0 in info['arms'] and len(info['arms']) == 1 and is_x(info['src'], op):
+                yield sw, info['arms'][0], info['otherwise'], op
